@@ -1,7 +1,8 @@
 #!/bin/sh
-# usage: tools/goals.sh coq/c20/Proofs.v LINE  -- show goals after LINE (file truncated there)
-f="$1"; n="$2"; d=$(dirname "$f"); b=$(basename "$f" .v)
-tmp="$d/zz_goal_$b.v"
+# usage: tools/goals.sh coq/c20/Proofs.v LINE [N] -- show goals after LINE (file truncated there)
+f="$1"; n="$2"
+mkdir -p /verif/.work/goals
+tmp="/verif/.work/goals/g_$$.v"
 head -n "$n" "$f" > "$tmp"; printf '\nShow.\nAbort All.\n' >> "$tmp"
-cd "$(dirname "$0")/../coq" && coqc -R . Verif -w none "$(realpath --relative-to=. "$tmp")" 2>&1 | tail -${3:-60}
-rm -f "$tmp" "$d/zz_goal_$b.vo" "$d/zz_goal_$b.glob" "$d/.zz_goal_$b.aux" "$d/zz_goal_$b.vos" "$d/zz_goal_$b.vok"
+cd /verif/coq && coqc -R . Verif -w none "$tmp" 2>&1 | tail -${3:-60}
+rm -f /verif/.work/goals/g_$$.* /verif/.work/goals/.g_$$.aux
